@@ -81,7 +81,12 @@ func (batch *Batch) close() (err error) {
 	batch.lock = nil
 
 	if batch.msgs != nil {
-		batch.msgs.discard()
+		// When the rest of the response cannot be skipped the connection is not
+		// positioned on the next response anymore: report it unless the batch
+		// already carries an error, so the connection gets closed below.
+		if err := batch.msgs.discard(); err != nil && (batch.err == nil || errors.Is(batch.err, io.EOF)) {
+			batch.err = dontExpectEOF(err)
+		}
 	}
 
 	if batch.msgs != nil && batch.msgs.decompressed != nil {
